@@ -1,7 +1,7 @@
 """Which contract families decide which property, and at what claimed level."""
 PROPS = {
     'C03': {
-        'families': ['contracts.optimizer', 'contracts.optfold', 'contracts.sigsim', 'contracts.rebuild', 'contracts.table_ops', 'contracts.native'],
+        'families': ['contracts.optimizer', 'contracts.optfold', 'contracts.sigsim', 'contracts.rebuild', 'contracts.table_ops', 'contracts.determinism', 'contracts.native'],
         'level': 'other',
         'technique': 'frame obligation by a conservative def-use scan of the real AST + contract on the fallback path; bounded native stand-in for result equivalence',
         'text': 'Frame obligation "processing does not alter the evolution definitions" decided by a conservative scan of every store '
@@ -14,7 +14,7 @@ PROPS = {
         'design_ref': 'DESIGN.md section 7.6',
     },
     'C01': {
-        'families': ['contracts.rebuild', 'contracts.dbstate', 'contracts.optfold', 'contracts.native'],
+        'families': ['contracts.rebuild', 'contracts.dbstate', 'contracts.optfold', 'contracts.determinism', 'contracts.native'],
         'level': 'proof',
         'technique': 'contract-based deductive verification of the rebuild plan and column clauses; bounded native stand-in for the schema comparison',
         'text': 'Deductive: column set/order and copy plan of a rebuilt table (to_sql prefix) and build_column_schema flag contract '
